@@ -254,44 +254,85 @@ def run(rep, tier, root=None):
             bad.append("reads module-level mutable object(s) %s" % gl)
         rep.check(not bad, "O3.pure-worker", f.fq + " is pure", "; ".join(bad), f.where())
 
-    # ---------------------------------------------------------------- O4 / O5 / O6 via normal forms and syntax trees
-    direct = [n for n in ast.walk(sp.node) if isinstance(n, ast.Call) and norm_text(n.func) == "wfs_covariance"]
-    if len(direct) != 1:
-        rep.unknown("O4.same-arguments", sp.fq, "expected one direct wfs_covariance call", sp.where())
+    # ---------------------------------------------------------------- O4 / O5 via normal forms (interpreter logs), O6 syntax
+    from ..interp import Obj
+    from ..plf import vkey
+
+    def logs_of(meth, extra_args):
+        Ic = Interp(ix, opaque={wc.fq, worker.fq})
+        oc = Obj(cls)
+        Ic.paths(meth, list(extra_args), self_obj=oc)
+        return Ic
+    Isp = logs_of(sp, [])
+    Imp = logs_of(mp, [Rat.sym("threads", ("int",))])
+    # O4: the argument tuple each copy hands to wfs_covariance (values, not spellings: locals are substituted)
+    sp_calls = [c for c in Isp.call_log if c[0] == sp.fq and c[1].split(".")[-1] == "wfs_covariance"]
+    mp_tuples = [c[2][0] for c in Imp.call_log if c[0] == mp.fq and c[1].endswith(".append") and c[2] and isinstance(c[2][0], tuple)
+                 and len(c[2][0]) == len(wc.params)]
+    if len(sp_calls) != 1 or len(mp_tuples) != 1:
+        rep.unknown("O4.same-arguments", mp.fq, "expected one direct wfs_covariance call and one argument tuple handed to the pool (%d/%d)"
+                    % (len(sp_calls), len(mp_tuples)), mp.where())
     else:
-        a_sp = [norm_text(a) for a in direct[0].args]
-        tup_node = appends[0].args[0] if appends[0].args else None
-        a_mp = [norm_text(a) for a in tup_node.elts] if isinstance(tup_node, ast.Tuple) else None
-        if a_mp is None or direct[0].keywords:
-            rep.unknown("O4.same-arguments", mp.fq, "pool arguments are not a literal tuple", mp.where(appends[0]))
-        else:
-            rep.check(len(a_sp) == len(a_mp) == len(wc.params), "O4.same-arguments", "both copies pass %d arguments" % len(wc.params),
-                      "single-process call has %d arguments, pool tuple %d, wfs_covariance takes %d" % (len(a_sp), len(a_mp), len(wc.params)),
-                      mp.where(appends[0]))
-            for k, (x, y) in enumerate(zip(a_sp, a_mp)):
-                rep.check(x == y, "O4.same-arguments", "argument %d (%s): %s" % (k, wc.params[k] if k < len(wc.params) else "?", x),
-                          "single-process copy passes `%s`, pool copy passes `%s`" % (x, y), mp.where(appends[0]))
-        # loop headers of the single-process assembly equal the consumer nest
-        sp_loops = loops_enclosing(sp.node, direct[0])
-        rep.check([header(l) for l in sp_loops] == [header(l) for l in cons_loops], "O5.same-order",
-                  "both copies accumulate layer-major over the same pair order",
-                  "single-process loops %s, pool consumer loops %s" % ([header(l) for l in sp_loops], [header(l) for l in cons_loops]), sp.where())
-        d1, s1 = assembly(sp_loops[-1].body if sp_loops else [])
-        d2, s2 = assembly(cons_loops[-1].body if cons_loops else [])
-        src1 = norm_text(direct[0])
-        src2 = norm_text(consumers[0])
-        norm1 = [(a.replace(src1, "<pair>"), b, c, d.replace(src1, "<pair>")) for a, b, c, d, _ in s1]
-        norm2 = [(a.replace(src2, "<pair>"), b, c, d.replace(src2, "<pair>")) for a, b, c, d, _ in s2]
-        # the per-pair tuple is unpacked into locals: map them by position
-        norm1 = _rename_pair(sp_loops[-1].body if sp_loops else [], norm1, direct[0])
-        norm2 = _rename_pair(cons_loops[-1].body if cons_loops else [], norm2, consumers[0])
-        rep.check(len(norm1) == len(norm2) and len(norm1) >= 4, "O5.same-operations", "both copies perform the same number of block updates",
-                  "single-process copy has %d block updates, pool copy %d" % (len(norm1), len(norm2)), mp.where())
-        for k, (x, y) in enumerate(zip(norm1, norm2)):
-            st2 = s2[k][4]
-            rep.check(x == y, "O5.same-operations", "block update %d: %s %s= ..." % (k, x[0][:80], {"Add": "+"}.get(x[2], x[2])),
-                      "the two copies do not perform the same operations in the same order:\n    single: %s %s %s\n    pool:   %s %s %s"
-                      % (x[0], x[2], x[3], y[0], y[2], y[3]), mp.where(st2))
+        a_sp = Isp.bind_args(wc, sp_calls[0][2], sp_calls[0][3], None) if sp_calls[0][3] else list(sp_calls[0][2])
+        a_mp = list(mp_tuples[0])
+        rep.check(len(a_sp) == len(a_mp) == len(wc.params), "O4.same-arguments", "both copies pass %d arguments" % len(wc.params),
+                  "single-process call has %d arguments, pool tuple %d, wfs_covariance takes %d" % (len(a_sp), len(a_mp), len(wc.params)), mp.where())
+        for k, (x, y) in enumerate(zip(a_sp, a_mp)):
+            rep.check(same_value(x, y), "O4.same-arguments", "argument %d (%s)" % (k, wc.params[k] if k < len(wc.params) else "?"),
+                      "single-process copy passes %s, pool copy passes %s" % (nf(x, 80), nf(y, 80)), mp.where())
+    # O5: the same block updates, in the same order, over the same iteration space
+    def updates(Ic, meth):
+        out = []
+        for s_ in Ic.store_log:
+            if s_[0] == meth.fq and s_[1] == "self.covariance_matrix":
+                out.append((s_[2], s_[5], _abstract_pair(s_[3]), s_[4], s_[6]))
+        return out
+
+    def _abstract_pair(v):
+        """the per-pair result (the direct call / the positional read of the pool results) -> one placeholder"""
+        if not isinstance(v, Rat):
+            return v
+        PAIR = Rat.sym("<pair>", ("array",))
+
+        def f(a):
+            if isinstance(a, Fn) and a.name == "call:" + wc.fq:
+                return PAIR
+            if isinstance(a, Fn) and a.name == "getitem" and isinstance(a.args[0], Rat):
+                inner = a.args[0].single_atom()
+                if isinstance(inner, Fn) and (inner.name.startswith("?method_map") or inner.name.startswith("?method_starmap")
+                                              or inner.name in ("map", "seqmap")):
+                    return PAIR
+                if isinstance(inner, Sym) and inner.name == "self.cov_mats":
+                    return PAIR
+            return None
+        return v.subst(f)
+    u1, u2 = updates(Isp, sp), updates(Imp, mp)
+    rep.check(len(u1) == len(u2) and len(u1) >= 4, "O5.same-operations", "both copies perform the same number of block updates",
+              "single-process copy has %d block updates, pool copy %d" % (len(u1), len(u2)), mp.where())
+    for k, (x, y) in enumerate(zip(u1, u2)):
+        same = same_value(x[0], y[0]) and x[1] == y[1] and same_value(x[2], y[2])
+        rep.check(same, "O5.same-operations", "block update %d: %s" % (k, x[4][:70]),
+                  "the two copies do not perform the same operations in the same order:\n    single: [%s] %s= %s\n    pool:   [%s] %s= %s"
+                  % (nf(x[0], 120), x[1], nf(x[2], 160), nf(y[0], 120), y[1], nf(y[2], 160)), "%s:%d" % (mp.module.relpath, y[3]))
+    # iteration space of the updates: the loops enclosing them, as (depth, range) normal forms
+    def space(Ic, meth, upd):
+        if not upd:
+            return None
+        node = next((n for n in ast.walk(meth.node) if isinstance(n, (ast.AugAssign, ast.Assign)) and n.lineno == upd[0][3]), None)
+        if node is None:
+            return None
+        lines = [l.lineno for l in loops_enclosing(meth.node, node)]
+        out = []
+        for ln in lines:
+            ent = [l for l in Ic.loop_log if l[0] == meth.fq and l[1] == ln]
+            if not ent:
+                return None
+            it = ent[0][3]
+            out.append(vkey((it.lo, it.hi, it.step)) if hasattr(it, "lo") else repr(it))
+        return out
+    s1, s2 = space(Isp, sp, u1), space(Imp, mp, u2)
+    rep.check(s1 is not None and s1 == s2, "O5.same-order", "both copies accumulate layer-major over the same pair order",
+              "iteration spaces differ: single-process %s, pool consumer %s" % (s1, s2), sp.where())
     # O6
     for f in (sp, mp):
         al = [n for n in f.node.body if isinstance(n, ast.Assign) and norm_text(n.targets[0]) == "self.covariance_matrix"]
